@@ -440,11 +440,20 @@ Definition CONFIRM_FAILED : Z := 1.
 Definition CONFIRM_PASSED : Z := 2.
 Definition CONFIRM_WAITING : Z := 3.
 
-Definition status_q (s : stage) (now : Z) (n : name) (sent : Z) : stage * Z :=
+(* GetVersionStatus (fix "status polls say which version"): the sender names the
+   hash it asks about ([] = any version, the old by-name question); what the cache
+   knows about ANOTHER version of the name is answered "unknown" *)
+Definition is_nil (h : name) : bool := match h with [] => true | _ => false end.
+
+Definition other_version (s : stage) (n h : name) : bool :=
+  negb (is_nil h) && negb (is_nil (cache_hash s n)) && negb (name_eqb (cache_hash s n) h).
+
+Definition status_q (s : stage) (now : Z) (n h : name) (sent : Z) : stage * Z :=
   let s := build_cache s now sent in
   let st := cache_state s n in
   (s,
-   if st =? ST_RECEIVED then CONFIRM_NONE
+   if other_version s n h then CONFIRM_NONE
+   else if st =? ST_RECEIVED then CONFIRM_NONE
    else if st =? ST_FAILED then CONFIRM_FAILED
    else if st =? ST_VALIDATED then (if is_waiting s n then CONFIRM_WAITING else CONFIRM_PASSED)
    else if (st =? ST_LOGGED) || (st =? ST_FINALIZED) then CONFIRM_PASSED
@@ -601,7 +610,7 @@ Inductive sop :=
 | OReceive (p : part_req) (data : list Z) (rerr : bool)
 | OSettle (now : Z)
 | OReceivedQ (now : Z) (ps : list part_req)
-| OStatusQ (now : Z) (n : name) (sent : Z)
+| OStatusQ (now : Z) (n h : name) (sent : Z)
 | OScanQ
 | OClean
 | OTimers
@@ -623,7 +632,7 @@ Definition sstep (H : list Z -> name) (s : stage) (op : sop) : stage * sout :=
   | OReceive p d e => let '(s', ok) := receive s p d e in (s', RBool ok)
   | OSettle now => (settle H SETTLE_FUEL s now, RNone)
   | OReceivedQ now ps => let '(s', k) := received_q s now ps in (s', RNum k)
-  | OStatusQ now n sent => let '(s', c) := status_q s now n sent in (s', RNum c)
+  | OStatusQ now n h sent => let '(s', c) := status_q s now n h sent in (s', RNum c)
   | OScanQ => let '(s', l) := scan_q s in (s', RScan l)
   | OClean => (clean s, RNone)
   | OTimers => (timers_fire s, RNone)
